@@ -304,6 +304,41 @@ def check_data_items(ctx, tier):
             ctx.violation(f"data-item-value:{mag}", f"DATA item {sp!r} (= {want!r}) is handed to ecb_read_filter as {first} (= {got!r})", {"source": src, "emitted": o[1]})
 
 
+def check_filter_call_sites(ctx):
+    """the call sites: when ANY DATA statement of the program has an empty item, every READ into a numeric variable or
+    array element goes through ecb_read_filter and every DATA item of every DATA statement is a quoted string (so that the
+    filter can be handed the empty one); with no empty item nothing is rewritten"""
+    from vf.realconv import classify
+
+    layouts = [("first", ["DATA , 7", "DATA 8 , 9"]), ("middle", ["DATA 1 , 2", "DATA 3 ,", "DATA 8 , 9"]), ("last", ["DATA 1 , 2", "DATA , 9"]),
+               ("only", ["DATA 1 , , 3"]), ("none", ["DATA 1 , 2", "DATA 3 , 4"]), ("after-read", ["DATA 1 , 2"]), ("leading-and-hex", ["DATA , &HFF", "DATA 2"])]
+    reads = ["READ A , B , C , D", "READ A ( 1 ) , B , C$ , D", "READ A : READ B : READ Q ( I )"]
+    for lname, datas in layouts:
+        for rd in reads:
+            lines = [f"10 {rd}"] + [f"{20 + 10 * i} {d}" for i, d in enumerate(datas)]
+            if lname == "after-read":
+                lines.append("90 DATA ,")
+            src = "\n".join(lines)
+            o = classify(src + "\n")
+            ctx.stats["programs"] += 1
+            ctx.stats["obligations"] += 1
+            if o[0] != "ok":
+                ctx.stats["identity"] += 1
+                continue
+            has_empty = lname != "none"
+            text = o[1]
+            nfilter = len(re.findall(r"(?i)RUN ecb_read_filter\(", text))
+            targets = re.findall(r"[A-Z]+\$?(?: \( [^)]* \))?", rd.replace("READ", ""))
+            numeric_targets = len([t for t in re.split(r"[,:]", rd.replace("READ", "")) if t.strip() and "$" not in t])
+            data_items = [it.strip() for ln in text.split("\n") for m in [re.match(r"\s*(?:\d+\s+)?DATA (.*)$", ln)] if m for it in m.group(1).split(",")]
+            unquoted = [it for it in data_items if not it.startswith('"')]
+            ok = (nfilter == numeric_targets and not unquoted) if has_empty else (nfilter == 0)
+            if ok:
+                ctx.stats["identity"] += 1
+            else:
+                ctx.violation(f"filter-call-site:empty-item-in-{lname}-data-statement", f"{src!r}: {nfilter} filter calls for {numeric_targets} numeric READ targets, unquoted DATA items {unquoted[:3]} (empty item present: {has_empty})", {"source": src, "emitted": text})
+
+
 def run(tier):
     ctx = Ctx("C20", tier, "model_checking", technique="symbolic execution of the real ecb.b09 procedures by the BASIC09 machine over z3 strings (bounded length, interpreted LEN/MID$/FIX), loops unrolled by path forking, both zero-trip FOR readings; z3 decides result = Color BASIC definition per path")
     smt.reset_stats()
@@ -319,6 +354,7 @@ def run(tier):
     check_string_argument_check(ctx, lib, K)
     check_read_filter(ctx, lib)
     check_data_items(ctx, tier)
+    check_filter_call_sites(ctx)
     ctx.stats["traces_validated_against_impl"] += 0
     ctx.add_solver_stats(smt.STATS.export())
     ctx.extra["solver"] = {"z3": smt.z3_version()}
